@@ -587,7 +587,7 @@ class C15(Base):
         "own calls; thread-level pre-emption inside a call is engine E3 (8% "
         "of quick and 30% of thorough runs: random hand-overs and whole-call "
         "excursions at line events; 3% / 5% of runs: pinned sweeps, one "
-        "world per line k = 1..24 of a constructor plus 10 drawn lines of "
+        "world per line k = 1..20 of a constructor plus 8 drawn lines of "
         "the task's life)",
     ]
     helper = None
@@ -639,9 +639,9 @@ class C15(Base):
 
     def pinned(self, rng, tier):
         """Engine E3, pinned sweep: two small tasks of one family; for k =
-        1..24 one world in which the second task's first library call (its
+        1..20 one world in which the second task's first library call (its
         whole constructor) runs in the middle of the first task's
-        constructor, at its k-th line; plus 10 worlds in which a whole call
+        constructor, at its k-th line; plus 8 worlds in which a whole call
         of the second task runs at a log-uniformly drawn line of the first
         task's life (inside one of its next() calls).  Enumerates, rather
         than samples, check-then-act windows on state shared between objects
@@ -656,9 +656,9 @@ class C15(Base):
                             "SingleDiskMove", "None")))
         tasks = []
         for _ in range(2):
-            cfg = draw_cfg(rng, rng.choice(fam), 14, 12)
+            cfg = draw_cfg(rng, rng.choice(fam), 12, 10)
             if cfg["N"] < 4:
-                cfg["N"] = rng.randint(4, 14)
+                cfg["N"] = rng.randint(4, 12)
             if cfg["cls"] == "Multistage" and rng.random() < 0.7:
                 # both unit kinds really in use
                 cfg["p"]["r"] = rng.randint(1, 3)
@@ -669,9 +669,9 @@ class C15(Base):
             tasks[1][0]["N"] = tasks[0][0]["N"]
         seed = rng.getrandbits(48)
         ops = [["e3", seed, tasks, 0, 0, 0, [0, "ctor", k]]
-               for k in range(1, 25)]
+               for k in range(1, 21)]
         import math
-        for _ in range(10):
+        for _ in range(8):
             k = int(math.exp(rng.uniform(math.log(20), math.log(6000))))
             ops.append(["e3", seed, tasks, 0, 0, 0, [0, "any", k]])
         return ListDriver(ops)
